@@ -272,7 +272,7 @@ func c08EvalName(t *fw.T, c *fw.Case) {
 
 // ---- targets ----
 
-var c08TargetKinds = []string{"same-name-other-dir", "same-name-other-dir-missing", "case-differs", "absent", "directory", "empty", "enotdir", "eloop", "dangling-symlink", "self", "cycle2", "cycle3", "jsight-in-include", "symlink-outside", "deep-ok", "same-file-twice", "fifo", "device"}
+var c08TargetKinds = []string{"same-name-other-dir", "same-name-other-dir-missing", "case-differs", "absent", "directory", "empty", "enotdir", "eloop", "dangling-symlink", "self", "cycle2", "cycle3", "jsight-in-include", "symlink-outside", "deep-ok", "same-file-twice", "fifo", "device", "jsight-only-in-include", "jsight-in-second-include", "jsight-in-include-after-paren"}
 
 func c08GenTarget(r *xrand.Rand, idx int, tier string) *fw.Case {
 	kind := c08TargetKinds[idx%len(c08TargetKinds)]
@@ -331,6 +331,18 @@ func c08GenTarget(r *xrand.Rand, idx int, tier string) *fw.Case {
 		files["sub/b.jst"] = []byte("TYPE @b any\nINCLUDE c.jst\n")
 		files["sub/c.jst"] = []byte("TYPE @c any\nINCLUDE b.jst\n")
 		root += wrap("INCLUDE a.jst")
+	case "jsight-only-in-include":
+		// the including file has no JSIGHT of its own and the INCLUDE is the first thing in it
+		files["j.jst"] = []byte("JSIGHT 0.3\nTYPE @j any\n")
+		root = "INCLUDE j.jst\n" + post
+		post = ""
+	case "jsight-in-second-include":
+		files["first.jst"] = []byte("TYPE @first any\n")
+		files["j.jst"] = []byte("JSIGHT 0.3\nTYPE @j any\n")
+		root = "INCLUDE first.jst\nINCLUDE j.jst\n"
+	case "jsight-in-include-after-paren":
+		files["j.jst"] = []byte("JSIGHT 0.3\nTYPE @j any\n")
+		root = "URL /w\n(\n  GET\n    200 any\n)\nINCLUDE j.jst\n"
 	case "jsight-in-include":
 		files["j.jst"] = []byte("JSIGHT 0.3\nTYPE @j any\n")
 		root += wrap("INCLUDE j.jst")
@@ -403,7 +415,7 @@ func c08EvalTarget(t *fw.T, c *fw.Case) {
 		t.Violation("include-resolved-against-wrong-directory", fmt.Sprintf("INCLUDE resp.jst written in sub/more.jst must name sub/resp.jst: %s", fw.Short(o.JSON, 300)))
 		return
 	}
-	mustReject := map[string]bool{"same-name-other-dir-missing": true, "absent": true, "directory": true, "enotdir": true, "eloop": true, "dangling-symlink": true, "self": true, "cycle2": true, "cycle3": true, "jsight-in-include": true, "fifo": true, "device": true}
+	mustReject := map[string]bool{"same-name-other-dir-missing": true, "absent": true, "directory": true, "enotdir": true, "eloop": true, "dangling-symlink": true, "self": true, "cycle2": true, "cycle3": true, "jsight-in-include": true, "fifo": true, "device": true, "jsight-only-in-include": true, "jsight-in-second-include": true, "jsight-in-include-after-paren": true}
 	mustAccept := map[string]bool{"same-name-other-dir": true, "case-differs": true, "deep-ok": true, "same-file-twice": true}
 	switch {
 	case mustReject[kind] && o.Outcome != run.Rejected:
